@@ -15,6 +15,8 @@ TIER_SIZES = {
     "tight": (24, 160),
     "adv": (32, 240),
     "perm": (24, 200),
+    "tier": (20, 160),      # hot buffer beyond its tiering threshold (known findings live here)
+    "overlap": (8, 40),
 }
 PERM_KINDS = ["AT", "AI", "PI", "ST"]
 
@@ -33,6 +35,12 @@ def jobs(tier, seed):
     rng = random.Random(f"adv-{seed}")
     for i in range(TIER_SIZES["adv"][idx]):
         out.append(("adv", gen.random_cfg(rng, alg="adv", family="roomy", maxn=3), {}))
+    rng = random.Random(f"tier-{seed}")
+    for i in range(TIER_SIZES["tier"][idx]):
+        out.append(("tier", gen.random_cfg(rng, alg=algs[i % 3], family="tier"), {}))
+    rng = random.Random(f"overlap-{seed}")
+    for i in range(TIER_SIZES["overlap"][idx]):
+        out.append(("overlap", gen.random_cfg(rng, alg=algs[i % 3], family="overlap", nobs=2), {}))
     rng = random.Random(f"perm-{seed}")
     for i in range(TIER_SIZES["perm"][idx]):
         c = gen.random_cfg(rng, alg=algs[i % len(algs)], family="roomy")
